@@ -493,6 +493,11 @@ func (vfs *MemFS) MkdirAll(path string, perm fs.FileMode) error {
 			break
 		}
 
+		if dn != parent && !dn.checkPermission(avfs.OpenWrite|avfs.OpenLookup, vfs.User()) {
+			// the directory just created may not be writable by its creator (umask).
+			return &fs.PathError{Op: op, Path: path, Err: vfs.err.PermDenied}
+		}
+
 		dn = vfs.createDir(dn, part, perm)
 
 		if !pi.Next() {
